@@ -48,6 +48,10 @@ type SCase struct {
 	OnlyTorn  int    `json:"only_torn"`
 	OnlyK2    int    `json:"only_k2"` // >=0: nested crash point in the recovery journal
 	OnlyTorn2 int    `json:"only_torn2"`
+	ValMode   int    `json:"val_mode,omitempty"`  // 0 unique attributable values, 1 codec-boundary values (C07)
+	ValSeed   uint64 `json:"val_seed,omitempty"`
+	MaxWalRec int    `json:"max_wal_rec,omitempty"`  // CrashOps "wal": at most this many log records are torn (0 = all)
+	TornPer   int    `json:"torn_per,omitempty"`     // CrashOps "wal": prefixes tried per record (0 = every prefix)
 }
 
 type worldS struct{}
@@ -89,6 +93,25 @@ func (worldS) Gen(r *core.Rand, env *core.Env) SCase {
 		if c.Knobs.MinGroupFiles > 3 {
 			c.Knobs.MinGroupFiles = 2
 		}
+	case "C09":
+		c.ReadEvery = false
+		c.Knobs.Partitions = 1
+	case "C07":
+		c.ValMode = 1
+		c.ValSeed = r.Uint64()
+		c.Knobs.Partitions = 1 // the WAL partition order defect (C01) must not mask codec defects
+		c.ReadEvery = true
+		if r.Bool(0.5) {
+			// clause (a): every prefix of log records
+			c.Crash = true
+			c.CrashOps = "wal"
+			c.MaxWalRec, c.TornPer = 3, 24
+			if thorough {
+				c.MaxWalRec, c.TornPer = 0, 0
+			}
+			c.ReadEvery = false
+			nops = r.Range(3, 10)
+		}
 	default: // C02
 		c.ReadEvery = true
 	}
@@ -102,12 +125,18 @@ func (worldS) Gen(r *core.Rand, env *core.Env) SCase {
 		if env.Property == "C01" {
 			w = []int{12, 4, 1, 0, 1, 1}
 		}
+		if env.Property == "C07" {
+			w = []int{10, 4, 3, 2, 3, 2}
+			if c.Crash {
+				w = []int{10, 2, 0, 0, 0, 1}
+			}
+		}
 		switch r.Weighted(w) {
 		case 0:
 			wid++
 			op := SOp{K: "w", ID: wid}
 			n := r.Range(1, 6)
-			if r.Intn(5) == 0 {
+			if r.Intn(5) == 0 || (env.Property == "C07" && r.Bool(0.5)) {
 				n = r.Range(6, 30)
 			}
 			// late data: older than what is already flushed, with some probability
@@ -278,6 +307,7 @@ type sRun struct {
 	flushGen int
 	ackPos map[[2]int]int // (incarnation, op) -> journal length when the op returned
 	seen   map[[2]int]bool // (measurement, series) already written
+	cellGens map[cellKey]map[int64]bool // flush generations in which a (series, timestamp) was written
 }
 
 func sviol(prop, kind, detail string, attrs map[string]string) *core.Violation {
@@ -290,6 +320,8 @@ func (w worldS) Exec(c SCase, env *core.Env) *core.Outcome {
 	if prop == "" {
 		prop = c.Prop
 	}
+	sValMode, sValSeed = c.ValMode, c.ValSeed
+	defer func() { sValMode, sValSeed = 0, 0 }()
 	fs := simfs.Install()
 	run := &sRun{c: c, env: env, out: out, fs: fs, model: newSModel(), r: core.NewRand(c.ReadSeed), prop: prop, ackPos: map[[2]int]int{}, seen: map[[2]int]bool{}}
 	defer run.cleanup()
@@ -316,6 +348,13 @@ func (w worldS) Exec(c SCase, env *core.Env) *core.Outcome {
 			return out
 		}
 		out.Stats["ops"]++
+		if run.prop == "C09" {
+			if v := aggChecks(run.env, run.node.sh, run.model, c, run.r, out, run.prop, i, op.K, 6, run.multiGen); v != nil {
+				v.Attrs = mergeAttrsS(v.Attrs, map[string]string{"op": op.K, "phase": "live"})
+				out.Violation = v
+				return out
+			}
+		}
 		if c.ReadEvery {
 			if v := run.readChecks(i, op.K, 3); v != nil {
 				v.Attrs = mergeAttrsS(v.Attrs, map[string]string{"op": op.K, "phase": "live"})
@@ -460,6 +499,19 @@ func (run *sRun) step(i int, op SOp) *core.Violation {
 			return sviol(run.prop, "write_error", fmt.Sprintf("op %d: WriteRows failed: %v", i, err), nil)
 		}
 		run.model.applyWrite(op.ID, op.Rows)
+		if run.cellGens == nil {
+			run.cellGens = map[cellKey]map[int64]bool{}
+		}
+		for _, r := range op.Rows {
+			if len(rowFields(r)) == 0 {
+				continue
+			}
+			k := cellKey{r.M, r.S, r.T}
+			if run.cellGens[k] == nil {
+				run.cellGens[k] = map[int64]bool{}
+			}
+			run.cellGens[k][before] = true // generation = number of flushes completed before the write
+		}
 		// A series becomes visible to queries once the index's in-memory items are
 		// flushed (the engine does that on a one-second timer, which the statements
 		// allow for: "once their series is visible in the index").  The simulator
@@ -546,6 +598,23 @@ func (run *sRun) step(i int, op SOp) *core.Violation {
 		run.model.dropMeasurement(op.M)
 	}
 	return nil
+}
+
+// multiGen reports whether some (series, timestamp) of measurement m inside the
+// time range was written in more than one flush generation.
+func (run *sRun) multiGen(m int, tmin, tmax int64) bool {
+	for k, gens := range run.cellGens {
+		if k.M != m {
+			continue
+		}
+		if t := sTime(k.T); t < tmin || t > tmax {
+			continue
+		}
+		if len(gens) > 1 {
+			return true
+		}
+	}
+	return false
 }
 
 func (run *sRun) waitSequencer() {
